@@ -170,8 +170,10 @@ type Alpha struct {
 	Full     bool // C13: fully populated values only (no zero leaf, no empty slice, no nil pointer)
 	Lite     bool // reduced configuration/input alphabets (used where another dimension is added)
 	PathOpt  bool // C02: the test alphabet has a fourth option {t1 with IssuePath("alias"), t2}
+	DoubleT2 bool // C05: the custom test of Int nodes is a free-form test function that reports two issues when it fails
 	PathT1   bool // C05: the built-in test t1 of every node is declared with IssuePath("alias@<node>")
 	NegStr   bool // C05: the second test of a string node is the built-in negated test Not().Contains("2") instead of a TestFunc with the same predicate
+	NoBracket bool // the tag assignment already names a list field with a "[]" suffix: no "only under key[]" input class
 	MutPost  bool // C13: value-changing PostTransforms are part of the alphabet {none, one changing, changing + plain}
 }
 
@@ -197,6 +199,9 @@ func (a *Alpha) primCfg(n *Node, idx int) {
 	t1, t2 := kindTests(n.Kind)
 	if a.NegStr && n.Kind == KStr {
 		t2 = TestSpec{Code: "not_contained", Builtin: true, Pred: t2.Pred}
+	}
+	if a.DoubleT2 && n.Kind == KInt {
+		t2.Double = true
 	}
 	if a.FE {
 		n.Tests = []TestSpec{t2}
@@ -244,6 +249,9 @@ func (a *Alpha) primCfg(n *Node, idx int) {
 	if !a.NoCatch {
 		n.Catch = idx%2 == 1
 	}
+	if a.PathOpt && ti == 1 {
+		t2.ViaCopy = true // C02: in the two-test configuration the custom test is a specialised copy of a reusable z.Test
+	}
 	switch ti {
 	case 0:
 		n.Tests = []TestSpec{t2}
@@ -262,6 +270,10 @@ func (a *Alpha) primCfg(n *Node, idx int) {
 // caseVariant: the field's own key is missing from the record, but a key that differs from it only in letter case
 // holds this value. Keys are case-sensitive in every front end: the field is absent.
 type caseVariant struct{ v any }
+
+// bracketVariant: the list is not sent under the field's key but under that key with a "[]" suffix (the spelling
+// some clients use for lists). A field's key is its tag or schema key, nothing else: the field is absent.
+type bracketVariant struct{ list []any }
 
 type inClass struct {
 	Label   string
@@ -562,8 +574,21 @@ func (b *caseBuilder) parseInput(n *Node, pp string, path string) (any, bool) {
 	unit := n.Pos + "#" + pp
 	switch n.Kind {
 	case KSlice:
-		shape := b.pick(unit, "in", slParseN)
+		nShapes := slParseN
+		if b.a.FE && !b.a.NoBracket && !strings.HasSuffix(path, "]") && path != "" {
+			nShapes++ // front-end alphabets, list that is a record field: also "only under key[]"
+		}
+		shape := b.pick(unit, "in", nShapes)
 		cnt := b.elems
+		if shape == slParseN {
+			list := make([]any, 0, cnt)
+			for i := 0; i < cnt; i++ {
+				v, _ := b.parseInput(n.Elem, fmt.Sprintf("%s.%d", pp, i), fmt.Sprintf("%s[%d]", path, i))
+				list = append(list, v)
+			}
+			b.absent(n, path)
+			return bracketVariant{list}, false
+		}
 		switch shape {
 		case SlMissing:
 			b.absent(n, path)
@@ -620,6 +645,15 @@ func (b *caseBuilder) parseInput(n *Node, pp string, path string) (any, bool) {
 		m := map[string]any{}
 		for _, f := range n.Fields {
 			v, miss := b.parseInput(f.N, pp, joinPath(path, f.Key))
+			if bv, ok := v.(bracketVariant); ok {
+				k := fieldKeyFor(f, b.a.SourceTag)
+				if strings.HasSuffix(k, "[]") {
+					m[k] = bv.list // the key itself carries the suffix: nothing unusual
+				} else {
+					m[k+"[]"] = bv.list
+				}
+				continue
+			}
 			if cv, ok := v.(caseVariant); ok {
 				k := fieldKeyFor(f, b.a.SourceTag)
 				alt := strings.ToUpper(k)
